@@ -5,7 +5,7 @@ CONSTANTS
   MaxTime = 8
   Bodies <- McBodiesDup
   Strangers = {0}
-  StrangerIds = {"77"}
+  StrangerIds = {"null"}
   EraseFirst = TRUE
   KeepOnResponse = FALSE
   Depth = 5
